@@ -439,8 +439,9 @@ pub enum Step {
     Flush,
 }
 
-const STEPS: [Step; 9] = [
+const STEPS: [Step; 10] = [
     Step::W(0),
+    Step::WriteAll(0),
     Step::W(1),
     Step::W(2),
     Step::W(8191),
